@@ -10,6 +10,8 @@
   kernel-checked certificates (Lemmas/LaueSysCerts.lean) computed against the current constraints files.
 -/
 import CijProofs.Lemmas.FillLaue
+import Generated.ReadersSpec
+import CijProofs.Lemmas.FillSource
 namespace Cij.C08
 open Cij Cij.Laue Cij.Fill
 
@@ -162,5 +164,30 @@ example : ¬ invariant "trigonal7" exTrig7bad := by
   intro h
   have := h ([0, 0, 0, 1, 0, 0, 0, 0, 1, 0, 0, 0, 0, 0, 0, 0, 0, 0, 0, 0, 0], 0) (by simp [Generated.constraints_trigonal7])
   simp [exTrig7bad, Fin.sum_univ_succ] at this
+
+/-! #### ties shared with other properties
+
+The statement of this property also rests on code whose translation is owned by another property's file; the theorems are restated
+here so that this property's obligations are re-checked against those files too (a change there breaks THIS check's proof as well). -/
+
+/-- `cij/io/traditional/elast_dat.py` (+ package glue) as translated on this run: `read_elast_data` and
+`apply_symetry_on_elast_data` are the statements the reader model mirrors (rows in file order, lattice block in file order, one frame row
+per volume BY NAME `"c%s%s" % key.v`, `fill_cij(df, **symmetry)` with the caller's dictionary untouched, rows written back as fresh
+mappings from `c_(key[1:])`), and the package re-exports the readers themselves (no caching wrapper) -/
+theorem c08_readers_are_source :
+    Generated.Readers.elastDatCanonical = true ∧ Generated.Readers.columnLiterals = ["c", ""] ∧ Generated.Readers.backSlice = 1 ∧
+    Generated.Readers.fillPositional = 1 ∧ Generated.Readers.fillKeywords = ["**<symmetry>"] ∧
+    Generated.Readers.rowVolumeIndex = 0 ∧ Generated.Readers.rowKeySlice = 1 ∧ Generated.Readers.rowValueSlice = 1 ∧
+    ("read_energy", "qha_input", "read_energy") ∈ Generated.Readers.packageImports ∧
+    ("read_elast_data", "elast_dat", "read_elast_data") ∈ Generated.Readers.packageImports := by decide
+
+/-- `cij/util/fill.py` as translated on this run: symbol order, verdict (both refusal tests, for all parameters, residuals and ranks)
+and the stacking of supplied rows before relation rows are the ones the fill model implements -/
+theorem c08_fill_is_source {α : Type} [Field α] [LinearOrder α] [IsStrictOrderedRing α]
+    (P : Cij.Fill.Params α) (s : Cij.Fill.Solved α) (rank : Nat) (hrank : rank < Cij.Fill.nsym ↔ s.rankDeficient = true) :
+    Cij.Fill.symbolNames = Generated.fillSymbols ∧
+    Cij.FillSource.evalRefusals (Cij.FillSource.refusalEnv P s rank) Generated.fillRefusals = some (Cij.Fill.verdict P s) ∧
+    Generated.fillStackA = [.supplied, .relations] ∧ Generated.fillStackB = [.supplied, .relations] :=
+  ⟨Cij.FillSource.symbols_are_source, Cij.FillSource.verdict_is_source P s rank hrank, by decide, by decide⟩
 
 end Cij.C08
